@@ -336,6 +336,35 @@ def section_flag_oracles(out, rng, thorough):
                     out.violations.append({"oracle": "a valid-unit-properties word survives the UPRP transcoder in every slot shape (only the all-zero record is a placeholder)",
                                            "word": w, "valid_special": special, "percentages": hp, "got": got})
                     break
+    # every elevation word of a location, on the slots where a map really holds one — the first, a middle one, the last of
+    # the original table, location 64 ("Anywhere"), the first and the last of the expansion table — and in the shapes an
+    # editor writes (a rectangle with a name; a named location of no extent): the word that comes back is the word
+    try:
+        from richchk.model.chk.mrgn.decoded_location import DecodedLocation
+        from richchk.model.chk.mrgn.decoded_mrgn_section import DecodedMrgnSection
+        from richchk.transcoder.richchk.transcoders.richchk_mrgn_transcoder import RichChkMrgnTranscoder
+        import trig_h
+
+        dctx, ectx = trig_h.contexts()
+        mtc = RichChkMrgnTranscoder()
+        empty = DecodedLocation(0, 0, 0, 0, 0, 0)
+        for slot in (0, 30, 62, 63, 64, 254):
+            for shape in ((32, 64, 96, 128, 7), (0, 0, 0, 0, 9)):
+                for w in range(64):
+                    locs = [empty] * 255
+                    locs[slot] = DecodedLocation(shape[0], shape[1], shape[2], shape[3], shape[4], w)
+                    out.case("mrgn-elevation-word", bytes([slot, w, shape[0]]))
+                    try:
+                        back = mtc.encode(mtc.decode(DecodedMrgnSection(_locations=list(locs)), dctx), ectx).locations
+                        got = (back[slot].elevation_flags, back[slot].left_x1, back[slot].top_y1, back[slot].right_x2, back[slot].bottom_y2, back[slot].string_id) if slot < len(back) else "slot missing"
+                    except Exception as ex:  # noqa: BLE001
+                        got = "ERR " + err_class(ex)
+                    if got != (w, shape[0], shape[1], shape[2], shape[3], shape[4]):
+                        out.violations.append({"oracle": "an elevation word survives the MRGN transcoder on every slot (location 64 included) and in every record shape that has a name",
+                                               "slot (0-based)": slot, "word": w, "record": list(shape), "got": got})
+                        break
+    except ImportError as ex:
+        out.notes.append("MRGN elevation sweep not run: %s" % ex)
     # the 27 "executed for player / group" bytes of a trigger: number i is byte i, in both directions
     try:
         from richchk.model.chk.trig.decoded_player_execution import DecodedPlayerExecution
